@@ -36,6 +36,8 @@ pub enum Op {
     Drain,
     /// (DB rigs only) clean shutdown and reopen on the same store
     Restart,
+    /// several primitive ops as one step of the search (macro-operation)
+    Multi(Vec<Op>),
 }
 
 impl Op {
@@ -60,9 +62,21 @@ impl Op {
             Op::World(i, v) => format!("world{i}={v}"),
             Op::Drain => "drain".into(),
             Op::Restart => "restart".into(),
+            Op::Multi(v) => {
+                v.iter().map(Op::short).collect::<Vec<_>>().join("; ")
+            }
+        }
+    }
+
+    pub fn flat(&self) -> Vec<Op> {
+        match self {
+            Op::Multi(v) => v.iter().flat_map(Op::flat).collect(),
+            o => vec![o.clone()],
         }
     }
 }
+
+pub fn flatten(h: &[Op]) -> Vec<Op> { h.iter().flat_map(Op::flat).collect() }
 
 pub fn hist_json(h: &[Op]) -> Value {
     json!(h.iter().map(Op::short).collect::<Vec<_>>())
@@ -82,7 +96,10 @@ pub struct Judge {
 #[derive(Clone, Debug, PartialEq, Eq, Default)]
 pub struct Finding {
     pub property: &'static str,
+    /// index of the (possibly macro) operation of the history
     pub step: usize,
+    /// index into the flattened history
+    pub fstep: usize,
     pub what: String,
     /// structured facts for classification (wrong-value findings)
     pub key: Option<Key>,
@@ -112,6 +129,7 @@ pub struct Lockstep {
     pub judge: Judge,
     pub findings: Vec<Finding>,
     pub step: usize,
+    pub fstep: usize,
     pub activations: usize,
     pub act_log: Vec<(usize, Key)>,
     pub values: Vec<(usize, Key, Val)>,
@@ -130,6 +148,7 @@ impl Lockstep {
             judge: Judge::default(),
             findings: Vec::new(),
             step: 0,
+            fstep: 0,
             activations: 0,
             act_log: Vec::new(),
             values: Vec::new(),
@@ -143,6 +162,7 @@ impl Lockstep {
         self.findings.push(Finding {
             property: "C01",
             step: self.step,
+            fstep: self.fstep,
             what,
             root: self.cur_root,
             ..Default::default()
@@ -159,6 +179,7 @@ impl Lockstep {
         self.findings.push(Finding {
             property: "C01",
             step: self.step,
+            fstep: self.fstep,
             what,
             key: Some(key),
             got: Some(got),
@@ -172,6 +193,7 @@ impl Lockstep {
             self.findings.push(Finding {
                 property: "C03",
                 step: self.step,
+                fstep: self.fstep,
                 what,
                 root: self.cur_root,
                 ..Default::default()
@@ -194,7 +216,7 @@ impl Lockstep {
             match e {
                 Event::Enter { key, act, .. } => {
                     self.activations += 1;
-                    self.act_log.push((self.step, *key));
+                    self.act_log.push((self.fstep, *key));
                     open.insert(*act, (*key, Vec::new()));
                     prev_at_enter.insert(
                         *act,
@@ -206,12 +228,6 @@ impl Lockstep {
                     // --- C03: is this activation justified? ---
                     match key {
                         Key::C(_) => {
-                            if self.judge.since_session.contains(key) {
-                                self.c03(format!(
-                                    "{key:?} executed twice between two \
-                                     input sessions"
-                                ));
-                            }
                             if let Some(prev) = self.judge.last_reads.get(key)
                             {
                                 let changed = prev.iter().any(|(d, v)| {
@@ -241,9 +257,6 @@ impl Lockstep {
                         }
                         Key::In(_) => {}
                     }
-                    if !self.judge.since_session.contains(key) {
-                        self.judge.since_session.push(*key);
-                    }
                 }
                 Event::Read { act, dep, val } => {
                     if let Some(o) = open.get_mut(act) {
@@ -268,9 +281,21 @@ impl Lockstep {
                 }
                 Event::Exit { key, act, val } => {
                     if let Some((k, reads)) = open.remove(act) {
+                        // an activation that was cut short (the engine
+                        // aborts sibling chunks of an unordered group) may
+                        // be recomputed: only completed runs count
                         if val.is_some() {
                             if let Key::C(_) = k {
                                 self.judge.last_reads.insert(k, reads);
+                                if self.judge.since_session.contains(&k) {
+                                    self.c03(format!(
+                                        "{k:?} ran to completion twice \
+                                         between two input sessions"
+                                    ));
+                                }
+                            }
+                            if !self.judge.since_session.contains(&k) {
+                                self.judge.since_session.push(k);
                             }
                         }
                     }
@@ -281,7 +306,7 @@ impl Lockstep {
     }
 
     pub fn user_value(&mut self, k: Key, v: Val) {
-        self.values.push((self.step, k, v));
+        self.values.push((self.fstep, k, v));
         let want = self.r.eval(&self.p, k);
         if want != Some(v) {
             self.c01_value(
@@ -450,19 +475,24 @@ pub async fn run_mem(p: &Program, hist: &[Op], abstract_ts: bool) -> RunResult {
     do_session(&eng, &sh, &mut ls, &init, true).await;
     sessions += 1;
 
-    for (i, op) in hist.iter().enumerate() {
+    let mut f = 0usize;
+    for (i, top) in hist.iter().enumerate() {
         ls.step = i;
-        match op {
-            Op::Session { writes, commit } => {
-                do_session(&eng, &sh, &mut ls, writes, *commit).await;
-                sessions += 1;
+        for op in top.flat() {
+            ls.fstep = f;
+            f += 1;
+            match &op {
+                Op::Session { writes, commit } => {
+                    do_session(&eng, &sh, &mut ls, writes, *commit).await;
+                    sessions += 1;
+                }
+                Op::Query(keys) => do_query(&eng, &sh, &mut ls, keys).await,
+                Op::World(c, v) => {
+                    sh.world.lock().unwrap()[*c as usize] = *v;
+                    ls.r.world[*c as usize] = *v;
+                }
+                Op::Drain | Op::Restart | Op::Multi(_) => {}
             }
-            Op::Query(keys) => do_query(&eng, &sh, &mut ls, keys).await,
-            Op::World(c, v) => {
-                sh.world.lock().unwrap()[*c as usize] = *v;
-                ls.r.world[*c as usize] = *v;
-            }
-            Op::Drain | Op::Restart => {}
         }
     }
 
@@ -573,6 +603,31 @@ pub fn alphabet(p: &Program, rich: bool) -> Vec<Op> {
         }
     }
     let n = p.nodes.len() as u8;
+    // macro-operations: an edit immediately followed by a query of the root
+    // (reaches "query; edit; query; edit; query" at depth 3)
+    let root = Key::C(n - 1);
+    for &i in &ins {
+        let vals: &[Val] = if i == 0 { &[1, 2, 0] } else { &[1, 0] };
+        for &v in vals {
+            ops.push(Op::Multi(vec![
+                Op::Session { writes: vec![W::Set(i, v)], commit: true },
+                Op::Query(vec![root]),
+            ]));
+        }
+    }
+    for &x in &xs {
+        for v in [1, 0] {
+            ops.push(Op::Multi(vec![
+                Op::World(x, v),
+                Op::Session { writes: vec![W::Refresh], commit: true },
+            ]));
+            ops.push(Op::Multi(vec![
+                Op::World(x, v),
+                Op::Session { writes: vec![W::Refresh], commit: true },
+                Op::Query(vec![root]),
+            ]));
+        }
+    }
     for j in 0..n {
         ops.push(Op::Query(vec![Key::C(j)]));
     }
@@ -790,11 +845,13 @@ pub fn snapshots(p: &Program, h: &[Op]) -> (Vec<Ref>, Vec<usize>) {
 pub fn classify(p: &Program, h: &[Op], acts: &[(usize, Key)], f: &Finding) -> Vec<String> {
     let mut tags = Vec::new();
     let (Some(x), Some(v)) = (f.key, f.got) else { return tags };
-    if f.step >= h.len() {
+    let h = &flatten(h)[..];
+    let fstep = f.fstep;
+    if fstep >= h.len() {
         return tags;
     }
     let (snaps, at) = snapshots(p, h);
-    let t = at[f.step];
+    let t = at[fstep];
     let with_x = |r: &Ref| {
         let mut r = r.clone();
         r.xsnap = r.world.map(Some);
@@ -827,7 +884,7 @@ pub fn classify(p: &Program, h: &[Op], acts: &[(usize, Key)], f: &Finding) -> Ve
         let below_root = below(p, root);
         let above_or_eq = |k: &Key| *k == root || below(p, *k).contains(&root);
         let mut hit = false;
-        for s in 0..f.step {
+        for s in 0..fstep {
             let Op::Query(ks) = &h[s] else { continue };
             if ks.iter().any(above_or_eq) {
                 continue;
@@ -838,7 +895,7 @@ pub fn classify(p: &Program, h: &[Op], acts: &[(usize, Key)], f: &Finding) -> Ve
             if !executed_below {
                 continue;
             }
-            let repaired_since = (s + 1..f.step).any(|s2| {
+            let repaired_since = (s + 1..fstep).any(|s2| {
                 matches!(&h[s2], Op::Query(k2) if k2.iter().any(above_or_eq))
             });
             if !repaired_since {
@@ -847,6 +904,37 @@ pub fn classify(p: &Program, h: &[Op], acts: &[(usize, Key)], f: &Finding) -> Ve
         }
         if hit {
             tags.push("F10b-root-tfc-stale".to_string());
+        }
+    }
+    // F10c: a firewall below the key was re-executed in an EARLIER epoch
+    // (after the stale snapshot) and a projection between it and the key was
+    // not executed from then until that epoch ended: the backward projection
+    // that was pending at the end of that epoch is never carried out.
+    {
+        let is = |k: &Key, st: crate::pq::Style| matches!(k, Key::C(j) if p.nodes[*j as usize].style == st);
+        let mut cands: Vec<Key> = below(p, x);
+        cands.push(x);
+        let projs: Vec<Key> =
+            cands.iter().copied().filter(|k| is(k, crate::pq::Style::P)).collect();
+        let mut hit = false;
+        for pk in &projs {
+            for fk in below(p, *pk).into_iter().filter(|k| is(k, crate::pq::Style::F)) {
+                for (s1, y) in acts {
+                    if *y != fk || *s1 >= fstep || at[*s1] >= t {
+                        continue;
+                    }
+                    let epoch = at[*s1];
+                    let proj_ran_later = acts.iter().any(|(s2, y2)| {
+                        *y2 == *pk && *s2 >= *s1 && at[*s2] == epoch
+                    });
+                    if !proj_ran_later {
+                        hit = true;
+                    }
+                }
+            }
+        }
+        if hit {
+            tags.push("F10c-pending-backward-projection-lost".to_string());
         }
     }
     tags
